@@ -69,6 +69,7 @@ def run(F, rep, tier):
     guard(F, rep)
     union_find(F, rep)
     census(F, rep, contracts)
+    cursor_total(F, rep)
     unsigned_sub(F, rep)
     index_guard(F, rep)
     parser_progress(F, rep)
@@ -1011,6 +1012,46 @@ def union_find(F, rep):
                     "both are the same root (possible after the recursive unification of a self-referential type) the node becomes "
                     "its own parent and every later find() loops forever" % (child["name"], target["name"])), line_of(a))
     rep.floor("UNION-FIND", "writes of TypeNode.parent", n, 2)
+
+
+# --------------------------------------------------------------------------- total access to the token slices
+
+PARTIAL_SLICE_METHODS = {"split_at", "split_at_mut", "get_unchecked", "get_unchecked_mut", "copy_from_slice", "swap", "chunks_exact",
+                         "rotate_left", "rotate_right", "select_nth_unstable", "split_first", "split_last"}
+
+
+def cursor_total(F, rep, rule="CURSOR-TOTAL"):
+    """The parser's cursor is not bounded by the number of tokens: Context::skip counts a token for every step, also the
+    end-of-input it reads past the last one (`new.curr += 1` runs while `token()` answers EOF), and error recovery leaves
+    the cursor there.  So no position derived from the cursor may be used to index or slice `tokens` / `spans` directly:
+    every access goes through an accessor that answers None / an empty iterator past the end."""
+    n_total = 0
+    bad = 0
+    for fn in F.own_fns(["sylt_parser"]):
+        k = 0
+        for x in nodes(fn_body(fn)):
+            kind = None
+            if x.get("k") == "Index":
+                bt = strip_ty(x.get("base_ty", "")).lstrip("&").replace("mut ", "").strip()
+                if bt.startswith("[") and not re.search(r";\s*\w+\]$", bt) and ("Token" in bt or "Span" in bt):
+                    kind = "`%s`" % pp(x)
+            elif x.get("k") == "MethodCall":
+                rt = strip_ty(x.get("recv_ty", "")).lstrip("&").replace("mut ", "").strip()
+                if rt.startswith("[") and ("Token" in rt or "Span" in rt):
+                    if x["m"] in PARTIAL_SLICE_METHODS:
+                        kind = "`.%s(..)`" % x["m"]
+                    elif x["m"] in ("get", "first", "last", "iter"):
+                        n_total += 1
+            if kind:
+                k += 1
+                bad += 1
+                rep.ob(rule, "%s|partial-access#%d" % (last(fn["_path"], 2), k), False,
+                       "%s reaches into the token/span slice with %s, which panics for a position past the end; the cursor "
+                       "stands past the end after an error reported at the end of the input (`x :: fn ->` without a final "
+                       "newline): the compiler aborts instead of printing the syntax error" % (last(fn["_path"], 2), kind), line_of(x))
+    rep.ob(rule, "sylt_parser|token-slices-only-through-total-accessors", bad == 0,
+           "tokens/spans are read through get / last / iter only (%d accesses), never by `[..]`" % n_total, sites=n_total)
+    rep.floor(rule, "total accesses to the token and span slices", n_total, 4)
 
 
 # --------------------------------------------------------------------------- census
